@@ -26,6 +26,11 @@ func New(ctx context.Context, cfg config.Config) (*db, error) {
 		return nil, fmt.Errorf("load core: %w", err)
 	}
 
+	// the container builds its components lazily and without synchronisation:
+	// build them all before the handle can be shared between goroutines
+	container.Store()
+	container.Transaction()
+
 	container.Cleaner().DeleteFilesAsync(ctx, deleteFiles)
 	container.Pool().Sched(ctx, wpool.Event{
 		Caller: "DeleteOld every minute",
